@@ -70,7 +70,11 @@ def build_and_validate_headers(headers: Iterable[Tuple[bytes, bytes]]) -> List[T
     for name, value in headers:
         if name[0] == b":"[0]:
             raise ValueError("Pseudo headers are not valid")
-        validated_headers.append((bytes(name).strip(), bytes(value).strip()))
+        validated_name, validated_value = bytes(name).strip(), bytes(value).strip()
+        for invalid in (b"\x00", b"\r", b"\n"):
+            if invalid in validated_name or invalid in validated_value:
+                raise ValueError("Header names and values must not contain NUL, CR or LF")
+        validated_headers.append((validated_name, validated_value))
     return validated_headers
 
 
